@@ -117,7 +117,13 @@ def launch(scns, W=3, timeout=150):
     return [{r: per_rank[r][k] for r in range(W) if per_rank[r][k] is not None} for k in range(len(scns))]
 
 
-def gloo_stream(ctx, gens, W=3, toolkit=False, classify=None):
+def gloo_stream(ctx, gens, toolkit=False, classify=None):
+    """quick: ONE launch of 3 processes; thorough: one launch each for W = 2, 3, 4"""
+    for W in ([3] if ctx.quick else [2, 3, 4]):
+        gloo_stream_w(ctx, gens, W)
+
+
+def gloo_stream_w(ctx, gens, W):
     """ONE gloo launch: the same scenarios on the checking transport and on real gloo must agree
     (outcomes and traces)."""
     from . import core, syncutil as su
@@ -128,7 +134,7 @@ def gloo_stream(ctx, gens, W=3, toolkit=False, classify=None):
     tries = 0
     while len(scns) < want and tries < 5000:
         tries += 1
-        scn = gens[tries % len(gens)](ctx.rng)
+        scn = gens[tries % len(gens)](ctx.rng, W) if gens[tries % len(gens)].__code__.co_argcount == 2 else gens[tries % len(gens)](ctx.rng)
         if scn["W"] != W or len(scn["group"]) < 1:
             continue
         iout, itr = su.run_sim(scn)
@@ -139,10 +145,10 @@ def gloo_stream(ctx, gens, W=3, toolkit=False, classify=None):
         sims.append((iout, itr))
     t0 = time.time()
     try:
-        res = launch(scns, W)
+        res = launch(scns, W, timeout=150 if ctx.quick else 400)
     except Exception as ex:
         ctx.oblige("tie:transport-vs-gloo", False, detail=str(ex)[:1200])
-        ctx.violation("no-failing-input-found", "gloo", {"broken": "tie:transport-vs-gloo", "detail": str(ex)[:2000]})
+        ctx.violation("no-failing-input-found", "gloo", {"broken": f"tie:transport-vs-gloo:W={W}", "detail": str(ex)[:2000]})
         return
     s.note = f"gloo launch {time.time() - t0:.1f}s for {len(scns)} scenarios"
     bad = None
@@ -159,10 +165,10 @@ def gloo_stream(ctx, gens, W=3, toolkit=False, classify=None):
             if (not ok or st != gres[r]["trace"]) and bad is None:
                 bad = {"scenario": su.jsonable(scn), "rank": r, "checking_transport": [so[0], enc(so[1]) if so[0] == "ok" else so[1:]],
                        "gloo": go, "trace_checking": st, "trace_gloo": gres[r]["trace"]}
-    ctx.oblige("tie:transport-vs-gloo", bad is None, detail=repr(bad)[:1500] if bad else "")
+    ctx.oblige(f"tie:transport-vs-gloo:W={W}", bad is None, detail=repr(bad)[:1500] if bad else "")
     if bad:
         s.mismatches.append(bad)
-        ctx.violation("failing-input", "gloo", {"check": "transport-vs-gloo", **bad, "broken": "tie:transport-vs-gloo"})
+        ctx.violation("failing-input", "gloo", {"check": "transport-vs-gloo", **bad, "broken": f"tie:transport-vs-gloo:W={W}"})
 
 
 if __name__ == "__main__":
